@@ -9,14 +9,15 @@ FAULT_MODES = ["before", "before", "after", "base", "dead"]
 
 @st.composite
 def reg_cases(draw, max_nodes=8, max_ops=6, faults=True, det_share=15, min_runs=1, disturb_last=False,
-              late=True, xdeps=False, alias=False, lits=2, sread=False):
-    g = specs.Gen(draw, registry=True, opaque=False, late=late, xdeps=xdeps, alias=alias, lits=lits, sread=sread)
+              late=True, xdeps=False, alias=False, lits=2, sread=False, foreign=False):
+    g = specs.Gen(draw, registry=True, opaque=False, late=late, xdeps=xdeps, alias=alias, lits=lits, sread=sread,
+                  foreign=foreign)
     n = draw(st.integers(2, max_nodes))
     # make sure there is something to store
     while len(g.nodes) < n:
         g.add_any()
     nodes = g.nodes
-    pure = [i for i, nd in enumerate(nodes) if specs.src_kind(nd) == "pure"]
+    pure = [i for i, nd in enumerate(nodes) if specs.src_kind(nd) == "pure" and not nd.get("foreign")]
     deletable = [i for i, nd in enumerate(nodes)
                  if (nd["k"] in ("call", "lit") and nd.get("stored")) or specs.src_kind(nd) == "dep"]
     ops = []
@@ -123,6 +124,8 @@ def spec_classes(spec):
         cl.append("alias_source")
     if any(nd.get("xdeps") for nd in nodes):
         cl.append("source_with_extra_deps")
+    if any(nd.get("foreign") for nd in nodes):
+        cl.append("foreign_source")
     if any(nd.get("sread") is not None for nd in nodes):
         cl.append("side_read")
     if any(nd.get("late") is not None for nd in nodes):
